@@ -120,7 +120,11 @@ impl OracleTable {
 pub fn ask_with_oracle(drv: &mut Driver, table: &mut OracleTable, build: &dyn Fn(&Sexp) -> Sexp) -> Sexp {
     for _ in 0..10_000 {
         let req = build(&table.to_sexp());
+        let t0 = std::time::Instant::now();
         let resp = drv.ask(&req);
+        if std::env::var("TSG_TRACE_ORACLE").is_ok() {
+            eprintln!("oracle round: request {} bytes, {} ms, response {}", req.to_text().len(), t0.elapsed().as_millis(), resp.to_text().chars().take(60).collect::<String>());
+        }
         if !table.answer(&resp) {
             return resp;
         }
